@@ -44,7 +44,8 @@
 (* the simulated venue renders from the calendar date, and an option pair  *)
 (* with strikes 2 and 2.5 (strike rendered by the venue).  Values: abstract*)
 (* integers (the harness renders price/amount in quarter units and time in *)
-(* half seconds from a fixed epoch).                                       *)
+(* time units - half seconds, or 1/64 s where the venue format carries    *)
+(* sub-millisecond times - from a fixed epoch, compared exactly).         *)
 (*                                                                         *)
 (* Deliberately open (DESIGN 5.4) - and nothing else:                      *)
 (*   * SignOpen routes (Gate.io futures/perpetual/option trades): the      *)
